@@ -5,7 +5,7 @@ cd "$(dirname "$0")"
 export GOFLAGS=-mod=mod GOPROXY=off GOSUMDB=off GOTOOLCHAIN=local
 mkdir -p .build evidence replays
 fl="plain"
-[ -d tools/rewrite ] && fl="$fl vs"
+[ -d tools/rewrite ] && fl="$fl vs vsr"
 fl="$fl race"
 ./check build $fl || exit 1
 echo "setup ok"
